@@ -18,7 +18,7 @@ EXPLANATION = (
     "population exactly once through solution_mut. Initialisation: the driver wraps exactly the solutions "
     "initialize() produced as unevaluated individuals and pushes them once; random_spread draws one value per domain "
     "entry from exactly that entry's range, population_size times; random_permutation shuffles 0..dimension; "
-    "random_bitstring has `dimension` bits. NOT decided: floating-point rounding of the bound arithmetic beyond the "
+    "random_bitstring has `dimension` bits. Every Initialization::initialize wrapper yields the requested number of solutions of the problem's dimension (generators inlined). NOT decided: floating-point rounding of the bound arithmetic beyond the "
     "sampled regions, termination probability of resampling for arbitrary sample sequences.")
 ASSUMPTIONS = ["rand's gen_range(range) returns a member of the range; Normal::sample returns a finite value"]
 
